@@ -125,7 +125,43 @@ func doCompile(in []byte) (out string) {
 			}
 		}
 	}
-	return fmt.Sprintf("%s %sX %sX %sX %s", errS, hex.EncodeToString(buf.Bytes()), dump(sm.SourceLinesToTarget), dump(sm.TargetLinesToSource), genSame)
+	return fmt.Sprintf("%s %sX %sX %sX %s %s", errS, hex.EncodeToString(buf.Bytes()), dump(sm.SourceLinesToTarget), dump(sm.TargetLinesToSource), genSame, lookups(sm))
+}
+
+// lookups: the two lookup functions the language server uses must answer every key of their table with the
+// table's entry, and positions outside the table with "not found"
+func lookups(sm *compiler.SourceMap) string {
+	check := func(name string, m map[int]map[int]compiler.Position, f func(int, int) (compiler.Position, bool)) string {
+		maxLine := -1
+		for l, cols := range m {
+			if l > maxLine {
+				maxLine = l
+			}
+			maxCol := -1
+			for c, want := range cols {
+				if c > maxCol {
+					maxCol = c
+				}
+				if got, ok := f(l, c); !ok || got != want {
+					return fmt.Sprintf("%s(%d,%d) = %v,%v; the table holds %v", name, l, c, got, ok, want)
+				}
+			}
+			if got, ok := f(l, maxCol+1); ok {
+				return fmt.Sprintf("%s(%d,%d) = %v,true; the table has no such key", name, l, maxCol+1, got)
+			}
+		}
+		if got, ok := f(maxLine+1, 0); ok {
+			return fmt.Sprintf("%s(%d,0) = %v,true; the table has no such line", name, maxLine+1, got)
+		}
+		return ""
+	}
+	if d := check("TargetPositionFromSource", sm.SourceLinesToTarget, sm.TargetPositionFromSource); d != "" {
+		return "bad:" + hex.EncodeToString([]byte(d))
+	}
+	if d := check("SourcePositionFromTarget", sm.TargetLinesToSource, sm.SourcePositionFromTarget); d != "" {
+		return "bad:" + hex.EncodeToString([]byte(d))
+	}
+	return "ok"
 }
 
 // doDiagnose labels a hang or panic of the lexer with the state function it happened in.
